@@ -128,6 +128,7 @@ def run_scenarios(scenarios, workdir, profile="rel", jobs=None):
 # trace validation
 # ---------------------------------------------------------------------------------------------------
 TRACE_SPECS = {
+    "TraceTwin": "TraceTwin.cfg",
     "TraceProps": "TraceProps.cfg",
     "TraceHB": "TraceHB.cfg",
     "TraceCounter": "TraceCounter.cfg",
@@ -288,3 +289,25 @@ def scenario_of(hrec, sid, kind, ln, nthreads, extra=None):
     if extra:
         sc.update(extra)
     return sc
+
+
+def validate_twin(parts_a, parts_b, mode, timeout=1800):
+    """TraceTwin on corresponding shards of two batches that executed the same scenarios."""
+    assert len(parts_a) == len(parts_b), "shard mismatch"
+    res = {"viol": [], "events": 0, "wall": 0.0, "matched": [0, 0, 0], "div": []}
+
+    def one(a, b):
+        r = run_tlc("TraceTwin", os.path.join(SPEC, "TraceTwin.cfg"), workers=1, timeout=timeout,
+                    env={"TRACE": a, "TRACE2": b, "TWINMODE": mode}, jvm=TRACE_JVM)
+        m = re.search(r'<<"CONSUMED", (\d+), (\d+)>>', r.out)
+        if not m or m.group(1) != m.group(2):
+            raise ToolError("TraceTwin on %s / %s: %s" % (a, b, r.out[-1500:]))
+        return {"viol": (r.printed("VIOL") or [[]])[0], "total": int(m.group(2)), "wall": r.wall,
+                "matched": (r.printed("MATCHED") or [[0, 0, 0]])[0]}
+    with cf.ThreadPoolExecutor(max_workers=JOBS) as ex:
+        for o in ex.map(lambda ab: one(*ab), list(zip(parts_a, parts_b))):
+            res["viol"] += o["viol"]
+            res["events"] += o["total"]
+            res["wall"] += o["wall"]
+            res["matched"] = [x + y for x, y in zip(res["matched"], o["matched"])]
+    return res
